@@ -43,9 +43,11 @@ def bounds(tier):
     }
 
 
-def compare_final(e, s1, s5, tag=""):
-    """claims on the final states of a single-cycle run s1 and a five-stage run s5"""
+def compare_final(e, s1, s5, tag="", mem5=None):
+    """claims on the final states of a single-cycle run s1 and a five-stage run s5
+    (mem5: the data-memory contents of s5 as a function of the address, default: its flat memory)"""
     c1, c5 = s1.ctx, s5.ctx
+    mem5 = mem5 or c5.mem_byte
     st1, st5 = c1.sim.state, c5.sim.state
     q = e.int("q", 0, 31)
     qa = e.int("qa", 0, 2**32 - 1)
@@ -53,7 +55,7 @@ def compare_final(e, s1, s5, tag=""):
     e.observe("retired5", s5.retired)
     e.observe("fault", [s1.fault is not None, s5.fault is not None])
     e.observe("reg[q]", [c1.reg(q), c5.reg(q)])
-    e.observe("mem[qa]", [c1.mem_byte(qa), c5.mem_byte(qa)])
+    e.observe("mem[qa]", [c1.mem_byte(qa), mem5(qa)])
     e.observe("output", [st1.output, st5.output])
     e.observe("exit", [st1.exit_code, st5.exit_code])
     e.claim("terminates-when-single-cycle-does", not s5.nonterminating, {"cycles": s5.steps})
@@ -64,7 +66,7 @@ def compare_final(e, s1, s5, tag=""):
         e.claim_eq("fault-address", s5.fault.address, s1.fault.address)
         e.claim_eq("fault-repr", s5.fault.instruction_repr, s1.fault.instruction_repr)
     e.claim_eq("registers", c5.reg(q), c1.reg(q))
-    e.claim_eq("memory", c5.mem_byte(qa), c1.mem_byte(qa))
+    e.claim_eq("memory", mem5(qa), c1.mem_byte(qa))
     e.claim_eq("output", st5.output, st1.output)
     e.claim_eq("exit_code", st5.exit_code, st1.exit_code)
     if s1.fault is None and s5.fault is None:
